@@ -13,6 +13,7 @@ import (
 	"github.com/ava-labs/avalanchego/trace"
 	"github.com/ava-labs/avalanchego/utils/logging"
 	"github.com/ava-labs/avalanchego/x/merkledb"
+	"go.uber.org/zap"
 
 	"github.com/ava-labs/hypersdk/chain"
 	"github.com/ava-labs/hypersdk/fees"
@@ -102,6 +103,21 @@ func (l *live) close() { l.db.Close() }
 func (l *live) window(head *chain.ExecutionBlock) (*validitywindow.TimeValidityWindow[*chain.Transaction], error) {
 	return validitywindow.NewTimeValidityWindow[*chain.Transaction](context.Background(), logging.NoLog{}, trace.Noop, l.index, head,
 		func(int64) int64 { return l.rules.ValidityWindow })
+}
+
+// slowLogger makes every Debug call of the code under test take ~300us. The builder logs
+// "skipping tx" while holding its block lock, so concurrently executing txs pile up behind the
+// lock: interleavings around the fit check that a free-running build almost never shows.
+type slowLogger struct{ logging.NoLog }
+
+func (slowLogger) Debug(string, ...zap.Field) { time.Sleep(300 * time.Microsecond) }
+
+func (l *live) builderWith(vw chain.ValidityWindow, cores int, targetTxsSize int, log logging.Logger) *chain.Builder {
+	cfg := chain.NewDefaultConfig()
+	cfg.TransactionExecutionCores = cores
+	cfg.TargetBuildDuration = 5 * time.Second
+	cfg.TargetTxsSize = targetTxsSize
+	return chain.NewBuilder(trace.Noop, fixture.RuleFactory{R: l.rules}, log, fixture.Metadata(), fixture.BalanceHandler(), l.mp, vw, fixture.Metrics(), cfg)
 }
 
 func (l *live) builder(vw chain.ValidityWindow, cores int, targetTxsSize int) *chain.Builder {
